@@ -161,7 +161,24 @@ for (const op of ops) {
         return new Response(nobody ? null : unb64(c.bodyB64), { status: c.status, headers: rh });
       };
       const copts = { ...(op.clientOpts || {}), fetch: fetchFn };
+      // A caller may keep one defaultHeaders object and hand it to several clients. A second client is
+      // built AFTER the one under test from the very same object, with other values for every other
+      // string option: what the first client sends must not depend on it, and the caller's object
+      // must still say what the caller wrote.
+      let callerHeaders = null, callerBefore = null;
+      if (op.sibling) {
+        callerHeaders = copts.defaultHeaders || {};
+        copts.defaultHeaders = callerHeaders;
+        callerBefore = JSON.stringify(callerHeaders);
+      }
       const client = new Cls('http://test.local', copts);
+      if (op.sibling) {
+        const sopts = { fetch: async () => new Response('{}', { status: 200 }), defaultHeaders: callerHeaders };
+        for (const [k, v] of Object.entries(op.clientOpts || {})) {
+          if (k !== 'defaultHeaders' && typeof v === 'string') sopts[k] = 'sibling-' + v;
+        }
+        try { new Cls('http://sibling.local', sopts); } catch (e) { out({ ...base, event: 'DriverError', seq: seq.n++, detail: 'sibling client: ' + String(e) }); }
+      }
       let fn = client[lowerFirst(op.rpc)];
       if (typeof fn !== 'function') {
         // identifier spelling of the method is the generator's business: match modulo case and underscores
@@ -173,6 +190,9 @@ for (const op of ops) {
       if (typeof fn !== 'function') { out({ ...base, event: 'DriverError', seq: seq.n++, detail: 'no method ' + lowerFirst(op.rpc) }); continue; }
       try {
         const v = await withTimeout(fn.call(client, op.req, op.callOpts || undefined));
+        if (op.sibling && JSON.stringify(callerHeaders) !== callerBefore) {
+          out({ ...base, event: 'CallerOptionsMutated', seq: seq.n++, before: callerBefore, after: JSON.stringify(callerHeaders) });
+        }
         out({ ...base, event: 'ClientRet', seq: seq.n++, kind: 'ok', value: v === undefined ? null : v });
       } catch (e) {
         if (String(e && e.message) === 'TIMEOUT') { out({ ...base, event: 'ClientRet', seq: seq.n++, kind: 'timeout' }); continue; }
